@@ -44,6 +44,7 @@ EXPECT = {
     "m-clone-truncates-on-force": (["C14"], ["C09"]),
     "m-set-len-skipped-when-shorter": (["C03"], ["C09"]),
     "m-hash-truncate-lookup": (["C06"], ["C09"]),
+    "m-retry-delay-in-millis": (["C08"], ["C09"]),
 }
 
 
